@@ -196,7 +196,13 @@ def held_objects(tier, rng):
                                         % (d[3].tag, ' '.join(la[max(0, k - 2):k + 1]), ' '.join(lb[max(0, k - 2):k + 1])),
                                 'case': {'kind': 'held', 'ro': ro_text, 'msgs': list(msgs)}, 'impl': live[:300], 'expected': reread[:300]})
                     break
-                fresh = {id(f.xml): f for f in ro.stories}
+                try:
+                    fresh = {id(f.xml): f for f in ro.stories}
+                except Exception as e:
+                    if well_formed(impl.parse_doc(str(ro)).find('roCreate')):
+                        vio.append({'what': 'after a %s evaluating ro.stories raised %s' % (d[3].tag, type(e).__name__),
+                                    'case': {'kind': 'held', 'ro': ro_text, 'msgs': list(msgs)}, 'impl': type(e).__name__, 'expected': 'a list of stories'})
+                    break
                 for st in held:
                     f = fresh.get(id(st.xml))
                     if f is None:
@@ -228,7 +234,10 @@ def replay_held(case):
                 continue
             if accessors.report_obj(ro) != accessors.report(str(ro)):
                 return {'violation': True, 'live': accessors.report_obj(ro)[:400], 'reread': accessors.report(str(ro))[:400]}
-            fresh = {id(f.xml): f for f in ro.stories}
+            try:
+                fresh = {id(f.xml): f for f in ro.stories}
+            except Exception as e:
+                return {'violation': bool(well_formed(impl.parse_doc(str(ro)).find('roCreate'))), 'stories_raised': type(e).__name__}
             for st in held:
                 f = fresh.get(id(st.xml))
                 if f is not None and story_local(st) != story_local(f):
